@@ -51,4 +51,10 @@ func runC06(c *Ctx) {
 	// a request may get into the injected table of the instance's data context -- it is written by Add,
 	// PluginLoader and Del only, never by an assignment of a rule (C15-V4)
 	c.ruleInjectedTableWriters("P8-injected-table-written-by-the-host-only")
+	// the compiled rules are one object for all instances of the pool: nothing a request computes is kept on
+	// a node of a rule, or two overlapping requests running the same rule read each other's values (the
+	// node-write part of the immutability rule, C15-V8)
+	c.only = func(key string) bool { return strings.Contains(key, "#ast-") }
+	c.ruleU2("P9-nothing-kept-on-the-shared-rules")
+	c.only = nil
 }
